@@ -226,11 +226,11 @@ func parseTrace(path, dir, markDir string) ([]TOp, error) {
 		}
 		pid, rest := m[1], m[2]
 		if strings.HasSuffix(rest, "<unfinished ...>") {
-			pending[pid] = strings.TrimSuffix(rest, "<unfinished ...>")
+			pending[pid] = strings.TrimRight(strings.TrimSuffix(rest, "<unfinished ...>"), " ")
 			continue
 		}
 		if r := reResumed.FindStringSubmatch(rest); r != nil {
-			rest = pending[pid] + r[1]
+			rest = pending[pid] + strings.TrimLeft(r[1], " ")
 			delete(pending, pid)
 		}
 		lines = append(lines, rest)
